@@ -1,7 +1,7 @@
 (* C14 - proofs about Model/PlayQueue.v.
    Part A: the invariant of spec_ programs under every schedule (Conc.trace_inv_all_schedules).
    Part B: the same statement refuted for impl_ programs (today's two-step write) by a schedule.
-   Part C: sequential histories cannot tell impl_write from spec_write. *)
+   Part C: sequential histories cannot tell old_write from spec_write. *)
 From Coq Require Import List NArith Bool Arith Lia.
 From Verif Require Import Base.Conc Base.Hex Base.VarInt Model.PlayQueue.
 Import ListNotations.
@@ -408,7 +408,7 @@ Proof.
     rewrite Hleb. simpl. split; reflexivity.
 Qed.
 
-(* ---------- Part B: today's two-step write ---------- *)
+(* ---------- Part B: the PRE-FIX two-step write (finding C14-1, fixed by 4cea635) ---------- *)
 
 Definition witness_pkt : pkt := mkPkt TTimes 7.
 Definition witness_pss : list (list pkt) := [[witness_pkt]].
@@ -416,9 +416,9 @@ Definition witness_fs : list (list phase) := [[Config; Play]].
 (* flipper: enter CONFIG ; writer: read pointer ; flipper: release ; writer: push on the released queue *)
 Definition witness_sched : list nat := [1; 0; 1; 0].
 
-Theorem fifo_refuted_for_impl :
+Theorem fifo_refuted_for_old_write :
   exists pss fs sched,
-    let r := run (threads_of (program impl_write pss fs)) sched init in
+    let r := run (threads_of (program old_write pss fs)) sched init in
     let s := final_state r in
     let evs := events r in
     complete (remaining r) = true /\ s_closed s = false /\ s_phase s = Play
@@ -434,9 +434,9 @@ Qed.
 
 (* the second window: pointer read in PLAY, encode after CONFIG was entered: the encoder refuses the
    packet and the connection is closed *)
-Theorem impl_closes_without_overflow :
+Theorem old_write_closes_without_overflow :
   exists pss fs sched,
-    let r := run (threads_of (program impl_write pss fs)) sched init in
+    let r := run (threads_of (program old_write pss fs)) sched init in
     complete (remaining r) = true
     /\ s_closed (final_state r) = true
     /\ events r = [EClose; ERes 0 witness_pkt RErrEncode].
@@ -454,9 +454,9 @@ Example small_spec_all_schedules :
   /\ length (all_schedules (threads_of (program spec_write small_pss small_fs))) = 30.
 Proof. vm_compute. split; reflexivity. Qed.
 
-Example small_impl_some_schedule_fails :
-  check_all_schedules (threads_of (program impl_write small_pss small_fs)) init trace_ok = false
-  /\ length (all_schedules (threads_of (program impl_write small_pss small_fs))) = 420.
+Example small_old_some_schedule_fails :
+  check_all_schedules (threads_of (program old_write small_pss small_fs)) init trace_ok = false
+  /\ length (all_schedules (threads_of (program old_write small_pss small_fs))) = 420.
 Proof. vm_compute. split; reflexivity. Qed.
 
 (* 1024 play-only packets fit into the queue, the 1025th write closes the connection *)
@@ -516,14 +516,14 @@ Proof. unfold obs_eq. intuition congruence. Qed.
 Lemma obs_eq_sym a b : obs_eq a b -> obs_eq b a.
 Proof. unfold obs_eq. intuition congruence. Qed.
 
-(* one call of today's write, run alone, is the property's write *)
+(* one call of the pre-fix write, run alone, is the property's write *)
 Lemma write_seq t p a b :
   obs_eq a b ->
-  snd (exec (impl_write t p) a) = snd (exec (spec_write t p) b)
-  /\ obs_eq (fst (exec (impl_write t p) a)) (fst (exec (spec_write t p) b)).
+  snd (exec (old_write t p) a) = snd (exec (spec_write t p) b)
+  /\ obs_eq (fst (exec (old_write t p) a)) (fst (exec (spec_write t p) b)).
 Proof.
   intros H. pose proof H as (H1 & H2 & H3 & H4).
-  unfold impl_write, spec_write. cbn [exec sem].
+  unfold old_write, spec_write. cbn [exec sem].
   unfold a_read_ptr, a_spec_write. rewrite <- H4.
   unfold a_qoe, get_reg. cbn [s_regs set_reg]. rewrite nth_upd_any.
   destruct (s_closed a) eqn:Hc.
@@ -546,19 +546,19 @@ Proof.
     (split; [reflexivity|unfold obs_eq; simpl; repeat split; congruence]).
 Qed.
 
-Theorem seq_impl_eq_spec ops : forall a b, obs_eq a b ->
-  seq_run impl_write ops a = seq_run spec_write ops b.
+Theorem seq_old_eq_spec ops : forall a b, obs_eq a b ->
+  seq_run old_write ops a = seq_run spec_write ops b.
 Proof.
   induction ops as [|o ops IH]; intros a b H; [reflexivity|].
   cbn [seq_run].
-  assert (Hstep : snd (exec (op_labels impl_write o) a) = snd (exec (op_labels spec_write o) b)
-                  /\ obs_eq (fst (exec (op_labels impl_write o) a)) (fst (exec (op_labels spec_write o) b))).
+  assert (Hstep : snd (exec (op_labels old_write o) a) = snd (exec (op_labels spec_write o) b)
+                  /\ obs_eq (fst (exec (op_labels old_write o) a)) (fst (exec (op_labels spec_write o) b))).
   { destruct o as [p|ph]; cbn [op_labels].
     - now apply write_seq.
     - cbn [exec]. destruct (set_seq ph a b H) as [He Ho].
       destruct (sem (LSet ph) a) as [a' e1] eqn:Ea. destruct (sem (LSet ph) b) as [b' e2] eqn:Eb.
       cbn [sem] in Ea, Eb. rewrite Ea, Eb in *. simpl in *. rewrite !app_nil_r. split; assumption. }
-  destruct (exec (op_labels impl_write o) a) as [a' e1].
+  destruct (exec (op_labels old_write o) a) as [a' e1].
   destruct (exec (op_labels spec_write o) b) as [b' e2].
   simpl in Hstep. destruct Hstep as [-> Ho].
   rewrite (IH a' b' Ho). destruct Ho as (_ & _ & _ & ->). reflexivity.
